@@ -25,6 +25,7 @@ Every way in which the real code falls short is reported as its own violation wi
   {'leftover': 'parent_connect_order'}     parent connect_order keeps (caller, <deleted> callee) ("TODO method port")
   {'leftover': 'ancestor_block_ref'} / {'raises': ...}  a block above the parent that reads a removed port is not updated
   {'lost': 'loopback_connection'}          a parent-level connection between two ports of the replaced child is dropped
+  {'leftover': 'parent_UU_constraint'}     U(x) < U(y) of a surviving component on a block of the replaced child keeps the removed block
   {'lost': 'needs_double_buffer'}          a parent update_ff block writes an input port of the replaced child: the new port is not marked
   {'lost': 'slice_signal'}                 a slice of a child port referenced from the parent is missing from all_signals / all_named_objects
   {'leftover': 'parent_const'}             the parent's Const tied to a removed port stays in parent consts / as an empty adjacency key
@@ -263,6 +264,11 @@ def directed():
   D.append(('structural-wrapper-UU', top,
             [{'path': ['c0', 'd0[0]'], 'new': pair(9220, ('c1', 'c0')), 'mode': 'cls'}, {'path': ['c0', 'd0[0]'], 'new': pair(9223, None), 'mode': 'obj'},
              {'path': ['c0', 'd0[0]'], 'new': pair(9226, ('c0', 'c1')), 'mode': 'cls'}, {'path': ['c0', 'd0[0]'], 'new': plain_leaf(9229, 1, 2), 'mode': 'obj'}], {}))
+  # 21. known finding: a SURVIVING component orders a block of the replaced child (U( s.c0.get_update_block("p0") ) < U( s.c1... ))
+  top = _c(9230, 1, 2, items=[_k('c0', plain_leaf(9231)), _k('c1', plain_leaf(9232))],
+           conns=[[R('c0', 'in0'), R('in0')], [R('c1', 'in0'), R('in0')], [R('out0'), R('c0', 'out0')], [R('out1'), R('c1', 'out0')]],
+           uux=[[R('c0', 'p0'), R('c1', 'p0')]])
+  D.append(('parent_UU_constraint', top, [{'path': ['c0'], 'new': plain_leaf(9233), 'mode': 'cls'}], {}))
   return D
 
 # ----------------------------------------------------------------------------------------------- one case
@@ -282,6 +288,8 @@ def features(spec):
     if s['mcs']: f.add('M')
     if s['uu']: f.add('UU')
     if s.get('uux'): f.add('UU-on-descendants')
+    if s.get('rdux') or s.get('wrux'): f.add('RD/WR-U-on-descendants')
+    if s.get('mcx'): f.add('M-on-descendants')
     if not top and not s.get('ph') and s['items'] and all(it['t'] == 'kid' for it in s['items']): f.add('structural-inner')
     if top and not s.get('ph') and s['items'] and all(it['t'] == 'kid' for it in s['items']): f.add('structural')
     if s['rdu']: f.add('RDU')
@@ -311,6 +319,8 @@ def leftover_name(where, what, note):
   if what.startswith('unregistered'): return 'slice_signal' if '[' in what and ':' in what else 'unregistered'
   if w == 'all_update_once' or (where.startswith('local') and w == 'update_once'): return 'update_once'
   if w == 'all_M_constraints': return None        # classified per tuple below
+  if w == 'all_U_U_constraints': return None      # classified per pair below
+  if w == 'U_U_constraints': return 'parent_UU_constraint'
   if w == 'M_constraints': return 'parent_M_constraint'
   if w in ('all_RD_U_constraints', 'all_WR_U_constraints'): return None   # classified per key below
   if w in ('RD_U_constraints', 'WR_U_constraints'): return 'parent_value_constraint'
@@ -330,6 +340,7 @@ def diff_name(field, extra, missing):
   ents = extra + missing
   if field in FIELD_NAME: return FIELD_NAME[field]
   if field == 'dbuf': return 'needs_double_buffer'
+  if field == 'uu' and extra and all(e.count('<dead>') == 1 for e in extra): return 'parent_UU_constraint'
   if field == 'sig' and missing and not extra and all(':' in e for e in missing): return 'slice_signal'
   if field == 'mc':
     return 'M_constraints' if all('<dead>' in e for e in extra) and not missing else 'parent_M_constraint'
@@ -370,8 +381,20 @@ def value_constraint_leftovers(top):
         names.add('parent_value_constraint' if cs else 'RD_WR_U_empty_key')
   return names
 
+def uu_constraint_leftovers(top):
+  """a pair with BOTH blocks gone belonged to a removed component (not uncollected); a pair with one live block was
+  declared by a surviving component on a block of the removed one (known family: parent_*_constraint)"""
+  live = set(top._dsl.all_upblk_hostobj)
+  names = set()
+  for x, y in top._dsl.all_U_U_constraints:
+    dead = (x not in live) + (y not in live)
+    if dead == 2: names.add('top.all_U_U_constraints')
+    elif dead == 1: names.add('parent_UU_constraint')
+  return names
+
 def special_leftovers(top):
-  return {n: [['top.all_M_constraints', '', '']] for n in m_constraint_leftovers(top)} | \
+  return {n: [['top.all_U_U_constraints', '', '']] for n in uu_constraint_leftovers(top)} | \
+         {n: [['top.all_M_constraints', '', '']] for n in m_constraint_leftovers(top)} | \
          {n: [['top.all_RD_U/WR_U_constraints', '', '']] for n in value_constraint_leftovers(top)}
 
 def sim_trace(t, spec, inputs):
@@ -590,11 +613,13 @@ def run_case(ck, case, verbose=False, report=True):
 # ----------------------------------------------------------------------------------------------- generation of cases
 
 def pinned(tree, p):
-  """a component that survives the replacement of `p` orders blocks under `p` with an explicit U-U constraint (it would keep
+  """a component that survives the replacement of `p` names blocks / signals / methods under `p` in an explicit U-U, RD/WR-U or M constraint (it would keep
   the removed blocks, like the known findings parent_value_constraint / parent_M_constraint): not a replacement target"""
   for n in range(len(p)):
     anc = U.sub(tree, p[:n])
-    for a, b in anc.get('uux', []):
+    refs = list(anc.get('uux', [])) + [[r, b] for key in ('rdux', 'wrux') for r, _, b in anc.get(key, [])] + \
+           [[x[1], y[1]] for x, y, _ in anc.get('mcx', [])]
+    for a, b in refs:
       for r in (a, b):
         q = tuple(p[:n]) + tuple(r[0])
         if q[:len(p)] == tuple(p) or tuple(p)[:len(q)] == q: return True
